@@ -116,6 +116,20 @@ def command_jobs(tier, wd, seed):
                            {"c": "send", "s": 0, "text": "num-ended", "cls": "query", "call": {"kind": "get", "m": "num_ended"}},
                            {"c": "idle"}, {"c": "eof", "s": 0}]
                 jobs.append({"kind": "command", "cls": cls, "line": line, "script": script, "twin": True})
+    # a dotted path is resolved when the command is executed: the same path after the attribute was rebound names the new function
+    ap = lambda: {"kind": "call", "m": "apply", "args": [{"$path": "ctlfuncs.alias"}], "kwargs": {}}       # noqa: E731
+    for cls in ("TaskPool", "SubPool"):
+        script = [{"c": "connect", "s": 0, "width": 80}, {"c": "idle"}, {"c": "rebind", "name": "alias", "to": "quick"},
+                  {"c": "send", "s": 0, "text": "apply ctlfuncs.alias", "cls": "cmd", "call": ap()}, {"c": "idle"},
+                  {"c": "rebind", "name": "alias", "to": "fail"},
+                  {"c": "send", "s": 0, "text": "apply ctlfuncs.alias", "cls": "cmd", "call": ap()}, {"c": "idle"},
+                  {"c": "rebind", "name": "alias", "to": "work"},
+                  {"c": "send", "s": 0, "text": "map ctlfuncs.alias [1,2]", "cls": "cmd",
+                   "call": {"kind": "call", "m": "map", "args": [{"$path": "ctlfuncs.alias"}, {"$lit": "[1,2]"}], "kwargs": {}}}, {"c": "idle"},
+                  {"c": "release_all"}, {"c": "idle"},
+                  {"c": "send", "s": 0, "text": "num-ended", "cls": "query", "call": {"kind": "get", "m": "num_ended"}},
+                  {"c": "idle"}, {"c": "eof", "s": 0}]
+        jobs.append({"kind": "command", "cls": cls, "line": "apply ctlfuncs.alias (rebound)", "script": script, "twin": True})
     return jobs, nprog
 
 
